@@ -16,6 +16,7 @@ CONSTANTS
   Multis = {1}
   Queries <- MCQueriesC
   MaxCount = 12
+  Tracks = {0, 1, 2}
   Acts = {"move", "toggle"}
 INIT Init
 NEXT Next
